@@ -751,3 +751,302 @@ Proof.
   rewrite (xlat_all_stops_at_none _ _ _ _ _ _ _ _ _ _ NN XL) in G. cbn [forallb is_none andb] in G.
   pose proof (forallb_In _ _ _ G op I) as Q. destruct op; try discriminate. congruence.
 Qed.
+
+(* ------------------------------------------------------------------ round 6: the translation premises of the row-level theorem, operand by operand *)
+Definition xs_low (st : xstate) : Prop := N.land (xs_regs st) 4294967040 = 0.
+
+Lemma land_lor_high : forall a b, N.land a 4294967040 = 0 -> b < 256 -> N.land (N.lor a b) 4294967040 = 0.
+Proof.
+  intros a b A B. rewrite N.land_lor_distr_l, A, N.lor_0_l.
+  apply N.bits_inj_0. intro n. rewrite N.land_spec.
+  destruct (N.lt_ge_cases n 8) as [L|G].
+  - replace (N.testbit 4294967040 n) with false; [apply andb_false_r|].
+    assert (n = 0 \/ n = 1 \/ n = 2 \/ n = 3 \/ n = 4 \/ n = 5 \/ n = 6 \/ n = 7) as C by lia.
+    destruct C as [->|[->|[->|[->|[->|[->|[->| ->]]]]]]]; reflexivity.
+  - replace (N.testbit b n) with false; [reflexivity|].
+    symmetry. destruct (N.eq_dec b 0) as [->|NZ]; [apply N.bits_0|].
+    apply N.bits_above_log2. apply N.log2_lt_pow2; [lia|]. apply N.lt_le_trans with (2 ^ 8); [exact B|apply N.pow_le_mono_r; lia].
+Qed.
+
+Lemma operands_ok_xlat : forall T x64 iflags avx dbops ops st0,
+  operands_ok T x64 iflags avx dbops ops = true -> xs_low st0 -> (x64 = false -> test (xs_flags st0) OF_RegGpq = false) ->
+  exists st, xlat_all T x64 false iflags avx ops st0 = inr (st, []) /\
+             (exists sigs, xs_sigs st = xs_sigs st0 ++ sigs /\ fits_all dbops sigs = true) /\
+             xs_low st /\ (x64 = false -> test (xs_flags st) OF_RegGpq = false).
+Proof.
+  induction dbops as [|d ds IH]; intros ops st0 H L G.
+  - destruct ops; [|discriminate]. exists st0. split; [reflexivity|]. split; [exists []; rewrite app_nil_r; auto|auto].
+  - destruct ops as [|o os]; [discriminate|]. cbn [operands_ok] in H. apply andb_true_iff in H. destruct H as [H1 H2].
+    unfold operand_ok in H1.
+    assert (NO : o <> ONone) by (intro Q; subst o; discriminate).
+    destruct (xlat_operand T x64 false iflags avx o) as [e|x comb] eqn:X; [destruct o; discriminate|].
+    assert (H1' : op_fits d (sig_of_xlat x) && (comb <? 256) && (x64 || negb (test (x_flags x) OF_RegGpq)) = true) by (destruct o; auto; discriminate).
+    apply andb_true_iff in H1'. destruct H1' as [H1' Gq]. apply andb_true_iff in H1'. destruct H1' as [F C]. apply N.ltb_lt in C.
+    set (st1 := {| xs_sigs := xs_sigs st0 ++ [sig_of_xlat x]; xs_flags := N.lor (xs_flags st0) (x_flags x); xs_regs := N.lor (xs_regs st0) comb;
+                   xs_mem := match o with OMem _ _ _ _ _ _ _ _ _ => Some o | _ => xs_mem st0 end |}).
+    assert (L1 : xs_low st1) by (unfold xs_low, st1; cbn [xs_regs]; apply land_lor_high; assumption).
+    assert (G1 : x64 = false -> test (xs_flags st1) OF_RegGpq = false).
+    { intros E. unfold st1. cbn [xs_flags]. specialize (G E). subst x64. cbn [orb] in Gq. apply negb_true_iff in Gq.
+      apply test_false_iff. apply test_false_iff in G, Gq. rewrite N.land_lor_distr_l, G, Gq. reflexivity. }
+    destruct (IH os st1 H2 L1 G1) as (st & XA & (sigs & S1 & S2) & L2 & G2).
+    exists st. split.
+    + cbn [xlat_all]. destruct o; try congruence; rewrite X; exact XA.
+    + split; [|auto]. exists (sig_of_xlat x :: sigs). split.
+      * rewrite S1. unfold st1. cbn [xs_sigs]. rewrite <- app_assoc. reflexivity.
+      * cbn [fits_all]. rewrite F, S2. reflexivity.
+Qed.
+
+Lemma db_row_validates_operandwise : forall T zq x64 row ops iflags avx sidx scnt,
+  forallb (sig_wf T) (vt_isig T) = true -> row_present T row = true ->
+  nth (N.to_nat (dr_inst row)) (vt_inst T) (0, 0, 0, 0) = (iflags, avx, sidx, scnt) ->
+  test (dr_mode row) (mode_bit x64) = true ->
+  operands_ok T x64 iflags avx (explicit_ops (dr_ops row)) ops = true ->
+  validate T zq x64 false {| vi_id := dr_inst row; vi_options := 0; vi_extra_type := 0; vi_extra_id := 0 |} ops = E_Ok.
+Proof.
+  intros T zq x64 row ops iflags avx sidx scnt WF P ROW M OK.
+  destruct (operands_ok_xlat T x64 iflags avx _ ops init_xstate OK) as (st & XA & (sigs & S1 & S2) & L & G).
+  { unfold xs_low. reflexivity. }
+  { intros _. reflexivity. }
+  cbn [init_xstate xs_sigs app] in S1.
+  eapply (db_row_validates T zq x64 false row _ ops iflags avx sidx scnt st [] WF P); eauto; cbn [vi_options vi_extra_type];
+  auto using lock_stage_plain, rep_stage_plain, evex_stage_plain, avx_stage_plain, extra_stage_none.
+  - rewrite S1. exact S2.
+  - unfold mode_stage. destruct x64.
+    + cbn [negb]. rewrite test_0_l. cbn [orb]. unfold xs_low in L. rewrite L. reflexivity.
+    + cbn [negb]. rewrite (G eq_refl). reflexivity.
+Qed.
+
+(* ------------------------------------------------------------------ a whole FAMILY of memory operands is acceptable for a sized-memory kind: mode-sized GP base 0..7, no index,
+   ANY displacement (zero where the row demands a base-only address), default segment, no broadcast *)
+Lemma operand_ok_plain_mem : forall T (x64 : bool) iflags avx sz sf bid (off : Z) (need_mb : bool),
+  mem_size_flag sz = Some sf -> bid < 8 ->
+  N.testbit (vd_base_regs (if x64 then vt_vd64 T else vt_vd86 T)) (if x64 then RT_Gp64 else RT_Gp32) = true ->
+  (need_mb = true -> (off mod 4294967296 = 0)%Z) ->
+  operand_ok T x64 iflags avx (N.lor sf (if need_mb then OF_FlagMemBase else 0), 0, false)
+             (OMem sz (if x64 then RT_Gp64 else RT_Gp32) bid 0 0 off 0 0 false) = true.
+Proof.
+  intros T x64 iflags avx sz sf bid off need_mb SZ BID BASE MB.
+  assert (B8 : bid = 0 \/ bid = 1 \/ bid = 2 \/ bid = 3 \/ bid = 4 \/ bid = 5 \/ bid = 6 \/ bid = 7) by lia.
+  unfold operand_ok, xlat_operand. cbv zeta.
+  replace (6 <? 0) with false by reflexivity.
+  replace (negb (0 =? 0)) with false by reflexivity. cbn [andb].
+  replace (0 =? 0) with true by reflexivity. cbn [andb].
+  assert (OT : (1 <? (if x64 then RT_Gp64 else RT_Gp32)) = true) by (destruct x64; reflexivity). rewrite OT.
+  cbn [negb andb]. rewrite BASE. cbn [negb andb].
+  assert (BV : (bid <? VirtIdMin) = true) by (apply N.ltb_lt; unfold VirtIdMin; lia). rewrite BV.
+  assert (B32 : (32 <=? bid) = false) by (apply N.leb_gt; lia). rewrite B32.
+  rewrite SZ.
+  unfold mem_size_flag in SZ.
+  destruct ((off mod 4294967296 =? 0)%Z) eqn:OFF.
+  - repeat match type of SZ with (if ?c then _ else _) = _ => destruct c end; inversion SZ; subst sf;
+    destruct need_mb; destruct x64;
+    destruct B8 as [->|[->|[->|[->|[->|[->|[->| ->]]]]]]]; vm_compute; reflexivity.
+  - assert (need_mb = false).
+    { destruct need_mb; [|reflexivity]. specialize (MB eq_refl). apply Z.eqb_neq in OFF. contradiction. }
+    subst need_mb.
+    repeat match type of SZ with (if ?c then _ else _) = _ => destruct c end; inversion SZ; subst sf;
+    destruct x64;
+    destruct B8 as [->|[->|[->|[->|[->|[->|[->| ->]]]]]]]; vm_compute; reflexivity.
+Qed.
+
+(* every immediate is acceptable for an immediate kind it belongs to, a label for a relative-displacement kind *)
+Lemma operand_ok_imm : forall T x64 iflags avx v need,
+  test need OF_RegMask = false -> test need OF_FlagMemBase = false ->
+  test (N.land (N.land (imm_flags v) MASK56) need) OF_OpMask = true ->
+  operand_ok T x64 iflags avx (need, 0, false) (OImm v) = true.
+Proof.
+  intros T x64 iflags avx v need NR NM F. unfold operand_ok, xlat_operand, sig_of_xlat, op_fits. cbn [x_flags x_regmask fst snd].
+  rewrite F, NR, NM. cbn [negb orb andb N.eqb].
+  assert (R : test (N.land (imm_flags v) MASK56) OF_RegMask = false /\ test (imm_flags v) OF_RegGpq = false).
+  { unfold imm_flags. repeat match goal with |- context [if ?c then _ else _] => destruct c end; vm_compute; split; reflexivity. }
+  destruct R as [R1 R2]. rewrite R1, R2. cbn [negb]. rewrite orb_true_r. reflexivity.
+Qed.
+
+Lemma operand_ok_label : forall T x64 iflags avx need,
+  test need OF_RegMask = false -> test need OF_FlagMemBase = false ->
+  test (N.land (N.land (N.lor OF_Rel8 OF_Rel32) MASK56) need) OF_OpMask = true ->
+  operand_ok T x64 iflags avx (need, 0, false) OLabel = true.
+Proof.
+  intros T x64 iflags avx need NR NM F. unfold operand_ok, xlat_operand, sig_of_xlat, op_fits. cbn [x_flags x_regmask fst snd].
+  rewrite F, NR, NM. cbn [negb orb andb N.eqb].
+  replace (test (N.land (N.lor OF_Rel8 OF_Rel32) MASK56) OF_RegMask) with false by (vm_compute; reflexivity).
+  replace (test (N.lor OF_Rel8 OF_Rel32) OF_RegGpq) with false by (vm_compute; reflexivity).
+  cbn [negb]. rewrite orb_true_r. reflexivity.
+Qed.
+
+(* ------------------------------------------------------------------ standard instances are acceptable operands (given the two reflected table facts) *)
+Lemma operand_ok_reg_flags_irrelevant : forall T x64 iflags avx d rt id, id < 16 ->
+  operand_ok T x64 iflags avx d (OReg rt id) = operand_ok T x64 0 0 d (OReg rt id).
+Proof.
+  intros T x64 iflags avx d rt id H. unfold operand_ok, xlat_operand. cbv zeta.
+  assert (A : (16 <=? id) = false) by (apply N.leb_gt; exact H). rewrite A. reflexivity.
+Qed.
+
+Lemma std_reg_ok : forall T x64 iflags avx need fixed rt id,
+  standard_registers_ok T = true -> std_reg x64 need fixed rt id = true ->
+  operand_ok T x64 iflags avx (need, fixed, false) (OReg rt id) = true.
+Proof.
+  intros T x64 iflags avx need fixed rt id SR H. unfold std_reg in H. apply andb_true_iff in H. destruct H as [H F].
+  apply existsb_exists in H. destruct H as ([[[[rt' kind] lo] hi] modes] & I & C).
+  repeat (apply andb_true_iff in C; let X := fresh "C" in destruct C as [C X]).
+  apply N.eqb_eq in C. subst rt'. apply N.eqb_eq in C3. subst kind. apply N.leb_le in C2, C1.
+  apply existsb_exists in C0. destruct C0 as (m & Im & Em). apply eqb_prop in Em. subst m.
+  unfold standard_registers_ok in SR. pose proof (forallb_In _ _ _ SR _ I) as Q. cbv beta iota in Q.
+  unfold class_regs_ok_in in Q. pose proof (forallb_In _ _ _ Q _ Im) as Q2. cbv beta in Q2.
+  assert (Iid : In id (nseq_v lo (S (N.to_nat (hi - lo))))) by (apply in_nseq_v; lia).
+  pose proof (forallb_In _ _ _ Q2 _ Iid) as Q3. cbv beta in Q3. apply andb_true_iff in Q3. destruct Q3 as [QA QB].
+  assert (I16 : id < 16).
+  { assert (hi <= 7); [|lia]. clear - I. unfold standard_register_classes in I. cbn [In] in I.
+    repeat (destruct I as [I|I]; [inversion I; subst; lia|]). destruct I. }
+  rewrite operand_ok_reg_flags_irrelevant by exact I16.
+  apply orb_true_iff in F. destruct F as [F|F]; apply N.eqb_eq in F; subst fixed; assumption.
+Qed.
+
+Lemma std_instance_ok : forall T x64 iflags avx d op,
+  standard_registers_ok T = true ->
+  N.testbit (vd_base_regs (vt_vd64 T)) RT_Gp64 && N.testbit (vd_base_regs (vt_vd86 T)) RT_Gp32 = true ->
+  std_instance x64 d op = true -> operand_ok T x64 iflags avx d op = true.
+Proof.
+  intros T x64 iflags avx [[need fixed] impl] op S B H. unfold std_instance in H.
+  apply andb_true_iff in H. destruct H as [NI H]. apply negb_true_iff in NI. subst impl.
+  destruct op as [|rt id|sz bt bid it iid off seg bcst home|v|]; try discriminate.
+  - apply std_reg_ok; assumption.
+  - repeat (apply andb_true_iff in H; let X := fresh "H" in destruct H as [H X]).
+    apply N.eqb_eq in H. subst bt. apply N.ltb_lt in H7. apply N.eqb_eq in H6, H5, H4, H3, H1. subst it iid seg bcst fixed.
+    apply negb_true_iff in H2. subst home.
+    destruct (mem_size_flag sz) as [sf|] eqn:SZ; [|discriminate].
+    assert (BB : N.testbit (vd_base_regs (if x64 then vt_vd64 T else vt_vd86 T)) (if x64 then RT_Gp64 else RT_Gp32) = true).
+    { apply andb_true_iff in B. destruct B as [B1 B2]. destruct x64; assumption. }
+    apply orb_true_iff in H0. destruct H0 as [E|E].
+    + apply N.eqb_eq in E. subst need.
+      pose proof (operand_ok_plain_mem T x64 iflags avx sz sf bid off false SZ H7 BB ltac:(discriminate)) as Q.
+      cbn in Q. rewrite N.lor_0_r in Q. exact Q.
+    + apply andb_true_iff in E. destruct E as [E1 E2]. apply N.eqb_eq in E1. subst need. apply Z.eqb_eq in E2.
+      exact (operand_ok_plain_mem T x64 iflags avx sz sf bid off true SZ H7 BB (fun _ => E2)).
+  - repeat (apply andb_true_iff in H; let X := fresh "H" in destruct H as [H X]).
+    apply N.eqb_eq in H. subst fixed. apply negb_true_iff in H2, H1. apply operand_ok_imm; assumption.
+  - repeat (apply andb_true_iff in H; let X := fresh "H" in destruct H as [H X]).
+    apply N.eqb_eq in H. subst fixed. apply negb_true_iff in H2, H1. apply operand_ok_label; assumption.
+Qed.
+
+Lemma std_instances_ok : forall T x64 iflags avx ds ops,
+  standard_registers_ok T = true ->
+  N.testbit (vd_base_regs (vt_vd64 T)) RT_Gp64 && N.testbit (vd_base_regs (vt_vd86 T)) RT_Gp32 = true ->
+  std_instances x64 ds ops = true -> operands_ok T x64 iflags avx ds ops = true.
+Proof.
+  induction ds as [|d ds IH]; intros [|o os] S B H; cbn in *; try discriminate; [reflexivity|].
+  apply andb_true_iff in H. destruct H as [H1 H2]. rewrite (std_instance_ok _ _ _ _ _ _ S B H1), (IH _ S B H2). reflexivity.
+Qed.
+
+Lemma db_row_validates_standard : forall T zq x64 row ops,
+  forallb (sig_wf T) (vt_isig T) = true -> row_present T row = true ->
+  standard_registers_ok T = true ->
+  N.testbit (vd_base_regs (vt_vd64 T)) RT_Gp64 && N.testbit (vd_base_regs (vt_vd86 T)) RT_Gp32 = true ->
+  test (dr_mode row) (mode_bit x64) = true ->
+  std_instances x64 (explicit_ops (dr_ops row)) ops = true ->
+  validate T zq x64 false {| vi_id := dr_inst row; vi_options := 0; vi_extra_type := 0; vi_extra_id := 0 |} ops = E_Ok.
+Proof.
+  intros T zq x64 row ops WF P SR B M ST.
+  destruct (nth (N.to_nat (dr_inst row)) (vt_inst T) (0, 0, 0, 0)) as [[[iflags avx] sidx] scnt] eqn:ROW.
+  eapply db_row_validates_operandwise; eauto. apply std_instances_ok; assumption.
+Qed.
+
+(* ------------------------------------------------------------------ standard operands under a {k} mask: k1..k7 on an instruction that has EVEX and the K flag *)
+Lemma db_row_validates_standard_k : forall T zq x64 row ops kid iflags avx sidx scnt,
+  forallb (sig_wf T) (vt_isig T) = true -> row_present T row = true ->
+  standard_registers_ok T = true ->
+  N.testbit (vd_base_regs (vt_vd64 T)) RT_Gp64 && N.testbit (vd_base_regs (vt_vd86 T)) RT_Gp32 = true ->
+  nth (N.to_nat (dr_inst row)) (vt_inst T) (0, 0, 0, 0) = (iflags, avx, sidx, scnt) ->
+  test iflags IF_Evex = true -> test avx AF_K = true -> 1 <= kid <= 7 ->
+  test (dr_mode row) (mode_bit x64) = true ->
+  std_instances x64 (explicit_ops (dr_ops row)) ops = true ->
+  validate T zq x64 false {| vi_id := dr_inst row; vi_options := 0; vi_extra_type := RT_Mask; vi_extra_id := kid |} ops = E_Ok.
+Proof.
+  intros T zq x64 row ops kid iflags avx sidx scnt WF P SR B ROW EV K KID M ST.
+  pose proof (std_instances_ok T x64 iflags avx _ _ SR B ST) as OK.
+  destruct (operands_ok_xlat T x64 iflags avx _ ops init_xstate OK) as (st & XA & (sigs & S1 & S2) & L & G).
+  { unfold xs_low. reflexivity. }
+  { intros _. reflexivity. }
+  cbn [init_xstate xs_sigs app] in S1.
+  eapply (db_row_validates T zq x64 false row _ ops iflags avx sidx scnt st [] WF P); eauto; cbn [vi_options vi_extra_type vi_extra_id];
+  auto using lock_stage_plain, rep_stage_plain, evex_stage_plain, avx_stage_plain.
+  all: try (rewrite S1; exact S2).
+  all: try (apply extra_stage_k; cbn [vi_options vi_extra_type vi_extra_id]; auto; apply test_0_l).
+  all: unfold mode_stage; destruct x64;
+    [cbn [negb]; rewrite test_0_l; cbn [orb]; unfold xs_low in L; rewrite L; reflexivity
+    |cbn [negb]; rewrite (G eq_refl); reflexivity].
+Qed.
+
+Lemma decor_flags : forall T iid nif naf iflags avx sidx scnt,
+  decor_present T (iid, nif, naf) = true -> nth (N.to_nat iid) (vt_inst T) (0, 0, 0, 0) = (iflags, avx, sidx, scnt) ->
+  (forall b, test nif b = true -> test iflags b = true) /\ (forall b, test naf b = true -> test avx b = true).
+Proof.
+  intros T iid nif naf iflags avx sidx scnt D ROW. unfold decor_present in D. rewrite ROW in D.
+  apply andb_true_iff in D. destruct D as [D D3]. apply andb_true_iff in D. destruct D as [_ D2]. apply N.eqb_eq in D2, D3.
+  split; intros b H; eapply test_mode_subset; eauto.
+Qed.
+
+Lemma db_row_validates_standard_masked : forall T zq x64 row ops kid nif naf,
+  forallb (sig_wf T) (vt_isig T) = true -> row_present T row = true ->
+  standard_registers_ok T = true ->
+  N.testbit (vd_base_regs (vt_vd64 T)) RT_Gp64 && N.testbit (vd_base_regs (vt_vd86 T)) RT_Gp32 = true ->
+  decor_present T (dr_inst row, nif, naf) = true -> test nif IF_Evex = true -> test naf AF_K = true ->
+  1 <= kid <= 7 -> test (dr_mode row) (mode_bit x64) = true ->
+  std_instances x64 (explicit_ops (dr_ops row)) ops = true ->
+  validate T zq x64 false {| vi_id := dr_inst row; vi_options := 0; vi_extra_type := RT_Mask; vi_extra_id := kid |} ops = E_Ok.
+Proof.
+  intros T zq x64 row ops kid nif naf WF P SR B D EV K KID M ST.
+  destruct (nth (N.to_nat (dr_inst row)) (vt_inst T) (0, 0, 0, 0)) as [[[iflags avx] sidx] scnt] eqn:ROW.
+  destruct (decor_flags _ _ _ _ _ _ _ _ D ROW) as [F1 F2].
+  eapply db_row_validates_standard_k; eauto.
+Qed.
+
+(* ------------------------------------------------------------------ soundness direction, composed: an accepted call was matched by a signature record that has a database origin *)
+Lemma accepted_call_has_origin : forall T rows exc zq x64 virt inst ops,
+  records_have_origin T rows exc = true -> 1 <= vi_id inst ->
+  validate T zq x64 virt inst ops = E_Ok ->
+  exists iflags avx sidx scnt, nth (N.to_nat (vi_id inst)) (vt_inst T) (0, 0, 0, 0) = (iflags, avx, sidx, scnt) /\
+    (scnt = 0 \/ exists j s st rest,
+       nth_error (inst_sigs T sidx scnt) j = Some s /\
+       xlat_all T x64 virt iflags avx ops init_xstate = inr (st, rest) /\
+       match_sig T zq (mode_bit x64) (xs_sigs st) s = Some false /\
+       (pair_in (vi_id inst, N.of_nat j) exc = true \/ sig_origin T rows (vi_id inst) s = true)).
+Proof.
+  intros T rows exc zq x64 virt inst ops RO ID H.
+  destruct (validate_ok_inv _ _ _ _ _ _ H) as (C & iflags & avx & sidx & scnt & st & rest & ROW & XL & _ & _ & S).
+  exists iflags, avx, sidx, scnt. split; [exact ROW|].
+  destruct S as [Z|(s & I & M)]; [left; exact Z|right].
+  destruct (In_nth_error _ _ I) as (j & E).
+  exists j, s, st, rest. repeat split; auto.
+  eapply records_origin; eauto.
+Qed.
+
+(* ------------------------------------------------------------------ standard operands under a LOCK prefix: lockable instruction, memory destination *)
+Lemma db_row_validates_standard_lock : forall T zq x64 row ops nif naf,
+  forallb (sig_wf T) (vt_isig T) = true -> row_present T row = true ->
+  standard_registers_ok T = true ->
+  N.testbit (vd_base_regs (vt_vd64 T)) RT_Gp64 && N.testbit (vd_base_regs (vt_vd86 T)) RT_Gp32 = true ->
+  decor_present T (dr_inst row, nif, naf) = true -> test nif IF_Lock = true ->
+  first_is_mem ops = true -> test (dr_mode row) (mode_bit x64) = true ->
+  std_instances x64 (explicit_ops (dr_ops row)) ops = true ->
+  validate T zq x64 false {| vi_id := dr_inst row; vi_options := OPT_Lock; vi_extra_type := 0; vi_extra_id := 0 |} ops = E_Ok.
+Proof.
+  intros T zq x64 row ops nif naf WF P SR B D LK FM M ST.
+  destruct (nth (N.to_nat (dr_inst row)) (vt_inst T) (0, 0, 0, 0)) as [[[iflags avx] sidx] scnt] eqn:ROW.
+  destruct (decor_flags _ _ _ _ _ _ _ _ D ROW) as [F1 _].
+  pose proof (std_instances_ok T x64 iflags avx _ _ SR B ST) as OK.
+  destruct (operands_ok_xlat T x64 iflags avx _ ops init_xstate OK) as (st & XA & (sigs & S1 & S2) & L & G).
+  { unfold xs_low. reflexivity. }
+  { intros _. reflexivity. }
+  cbn [init_xstate xs_sigs app] in S1.
+  eapply (db_row_validates T zq x64 false row _ ops iflags avx sidx scnt st [] WF P); eauto; cbn [vi_options vi_extra_type vi_extra_id].
+  all: try (rewrite S1; exact S2).
+  all: try (rewrite FM; apply lock_stage_lock; apply F1; exact LK).
+  all: try (unfold rep_stage; replace (test OPT_Lock kRepAny) with false by (vm_compute; reflexivity); reflexivity).
+  all: try (unfold evex_stage; replace (test OPT_Lock OPT_Evex) with false by (vm_compute; reflexivity); reflexivity).
+  all: try (unfold avx_stage; replace (test OPT_Lock kAvx512) with false by (vm_compute; reflexivity); reflexivity).
+  all: try (apply extra_stage_none; reflexivity).
+  all: unfold mode_stage; destruct x64;
+    [cbn [negb]; replace (test OPT_Lock OPT_Rex) with false by (vm_compute; reflexivity); cbn [orb]; unfold xs_low in L; rewrite L; reflexivity
+    |cbn [negb]; rewrite (G eq_refl); reflexivity].
+Qed.
